@@ -41,11 +41,73 @@ def _negated_text(test):
 
 
 class RegionInterp:
-    def __init__(self, var, env, consts_ok=None, on_store=None, alias=None):
+    def __init__(self, var, env, consts_ok=None, on_store=None, alias=None, helpers=None):
         self.var = var
         self.env = dict(env)          # normalised constant expression -> representative number
         self.on_store = on_store      # predicate(stmt) -> True when the statement is the guarded sink
         self.alias = alias or {}
+        self.helpers = helpers or {}  # name -> FunctionInfo of the private helpers of the unit (extract-method)
+        self.derived = set()          # locals whose tracked value was computed from the variable
+        self._depth = 0
+
+    # ---- helper calls (extract-method): the callee body is interpreted with the arguments substituted ----
+    def _helper_of(self, call):
+        if not isinstance(call, ast.Call) or not self.helpers:
+            return None
+        f = call.func
+        name = None
+        if isinstance(f, ast.Attribute) and isinstance(f.value, ast.Name):
+            name = f.attr
+        elif isinstance(f, ast.Name):
+            name = f.id
+        h = self.helpers.get(name)
+        if h is None or self._depth > 2:
+            return None
+        if not any(self._dep(a) for a in list(call.args) + [k.value for k in call.keywords]):
+            return None
+        return h
+
+    def _dep(self, node):
+        return any(isinstance(x, ast.Name) and (x.id == self.var or x.id in self.derived) for x in ast.walk(node))
+
+    def _inline(self, call, h, v, flags):
+        """Outcome of the helper body for the representative (arguments substituted for the parameters)."""
+        import copy
+        params = list(h.params)
+        if params and params[0] in ('self', 'cls') and isinstance(call.func, ast.Attribute):
+            params = params[1:]
+        sub = {}
+        for p, a in zip(params, call.args):
+            sub[p] = a
+        for k in call.keywords:
+            if k.arg in params:
+                sub[k.arg] = k.value
+
+        class S(ast.NodeTransformer):
+            def visit_Name(self, node):
+                if node.id in sub:
+                    return copy.deepcopy(sub[node.id]) if isinstance(node.ctx, ast.Load) or \
+                        isinstance(sub[node.id], ast.Name) else node
+                return node
+        body = [S().visit(copy.deepcopy(st)) for st in h.node.body]
+        # assigning a parameter inside the helper must not be seen by the caller: the substituted variable is
+        # restored afterwards, and so are the caller's locals
+        env0, der0 = dict(self.env), set(self.derived)
+        self._depth += 1
+        try:
+            o, _ = self.run(body, v, flags)
+        finally:
+            self._depth -= 1
+            self.env, self.derived = env0, der0
+        return o
+
+    def _helper_calls(self, st):
+        out = []
+        for x in ast.walk(st):
+            h = self._helper_of(x)
+            if h is not None:
+                out.append((x, h))
+        return out
 
     def const(self, e):
         try:
@@ -65,7 +127,11 @@ class RegionInterp:
         for st in body:
             if isinstance(st, ast.If):
                 neg = _negated_text(st.test)
-                if norm(st.test) in flags or neg in flags or not _mentions(st.test, self.var):
+                for c, h in self._helper_calls(st.test):
+                    o = self._inline(c, h, v, flags)
+                    if o.kind == 'raise':
+                        return o, v
+                if norm(st.test) in flags or neg in flags or not self._dep(st.test):
                     t = norm(st.test)
                     if t in flags:
                         branch = st.body if flags[t] else st.orelse
@@ -105,6 +171,14 @@ class RegionInterp:
                 continue
             if isinstance(st, ast.Raise):
                 return Outcome('raise', node=st), v
+            if isinstance(st, ast.Continue):
+                return Outcome('continue', node=st), v
+            if not isinstance(st, (ast.For, ast.While, ast.With, ast.Try)):
+                self._flags = flags
+                for c, h in self._helper_calls(st):
+                    o = self._inline(c, h, v, flags)
+                    if o.kind == 'raise':
+                        return o, v
             if isinstance(st, ast.Return):
                 return Outcome('return', value=self._ret_value(st.value, v), node=st), v
             if self.on_store is not None and self.on_store(st):
@@ -133,18 +207,23 @@ class RegionInterp:
                         if isinstance(el, ast.Name) and k in self.env:
                             self.env[el.id] = self.env[k]
                     continue
-                if isinstance(t, ast.Name) and not _mentions(st.value, self.var):
-                    k = norm(st.value)
-                    if k in self.env:
-                        self.env[t.id] = self.env[k]
+                if isinstance(t, ast.Name) and not self._dep(st.value):
+                    self.derived.discard(t.id)
+                    try:
+                        self.env[t.id] = intcmp._const(st.value, self.env)
+                    except intcmp.NotSimple:
+                        self.env.pop(t.id, None)
                     continue
-                if isinstance(t, ast.Name) and _mentions(st.value, self.var):
-                    # derived quantity (e.g. bounds_fraction): tracked when it is plain arithmetic
+                if isinstance(t, ast.Name) and self._dep(st.value):
+                    # derived quantity (e.g. bounds_fraction, an alias of the value): tracked when it is plain
+                    # arithmetic
                     nv = self._num(st.value, v)
                     if nv is not None:
                         self.env[t.id] = nv
+                        self.derived.add(t.id)
                     else:
                         self.env.pop(t.id, None)
+                        self.derived.discard(t.id)
                     continue
             if isinstance(st, (ast.Expr, ast.Pass, ast.AnnAssign, ast.For, ast.AugAssign, ast.Assign)):
                 if isinstance(st, ast.For):
@@ -158,6 +237,10 @@ class RegionInterp:
         """Numeric value of an arithmetic / min / max expression over the variable and the constants."""
         if isinstance(e, ast.Name) and e.id == self.var:
             return v
+        h = self._helper_of(e)
+        if h is not None:
+            o = self._inline(e, h, v, getattr(self, '_flags', None))
+            return o.value if o.kind == 'return' else None
         if isinstance(e, ast.Call) and isinstance(e.func, ast.Name) and e.func.id in ('min', 'max') and \
                 len(e.args) >= 2 and not e.keywords:
             vals = [self._num(a, v) for a in e.args]
@@ -191,10 +274,19 @@ class RegionInterp:
             e = e.elts[0]
         if isinstance(e, ast.Name) and e.id == self.var:
             return v
+        nv = self._num(e, v)
+        if nv is not None:
+            return nv
         try:
             return self.const(e)
         except AnalysisError:
             return None
+
+
+def unit_helpers(ctx, fn):
+    """name -> FunctionInfo for the private helpers fn calls (see common.unit_functions)."""
+    from .common import unit_functions
+    return {f.name: f for f in unit_functions(ctx.prog, fn) if f is not fn}
 
 
 def representatives(points, integer):
